@@ -50,9 +50,12 @@ def inherit(mycfg, basecfg, subst=None):
 
 
 def generate(ctx, nprog, ncases, depth, seed):
-    subst = {"Ops": pithos.tla_set(OPS), "GenDepth": str(depth), "NCases": str(ncases)}
+    # the generator's model follows the code's known Pithos-level deviations, so that the corruption cases name
+    # physical parts of the state the real storage will actually be in
+    subst = {"Ops": pithos.tla_set(OPS), "GenDepth": str(depth), "NCases": str(ncases),
+             "Deviations": ctx.deviations(props=pithos.PROPS)}
     r = ctx.tlc("IntegrityGen", "Integrity.Gen.cfg", workers=1, simulate="num=%d" % nprog, depth=depth + 1, seed=seed,
-                timeout=600, count_mc=False, subst=inherit("Integrity.Gen.cfg", "Pithos.Gen.cfg", subst))
+                timeout=600, count_mc=False, subst=inherit("Integrity.Gen.cfg", "Pithos.MCver.cfg", subst))
     progs = [p for p in r.printed if isinstance(p, dict) and "calls" in p]
     ctx.log("GEN: %d programs, %.1fs" % (len(progs), r.wall))
     if len(progs) < nprog:
@@ -148,7 +151,7 @@ def validate(ctx, groups):
     return records, dropped
 
 
-def coverage(records, dropped):
+def coverage(records, dropped, quick=False):
     f = [r["facts"] for r in records]
     cov = {
         "cases": len(f),
@@ -173,6 +176,8 @@ def coverage(records, dropped):
     need = ["cases_report_and_intact", "cases_shared_part_damaged", "cases_multipart_reported", "cases_single_part_composite_etag",
             "cases_cold_store", "cases_versioned_reported", "cases_no_corruption", "cases_delete_with_report",
             "cases_only_uncovered_parts_damaged"]
+    if quick:       # objects of the latent deviation (one part, composite ETag): demanded in thorough only
+        need.remove("cases_single_part_composite_etag")
     missing = [k for k in need if cov[k] == 0] + ([] if len(cov["kinds"]) == 4 else ["kinds"])
     if cov["cases_with_report"] < 2:
         missing.append("cases_with_report")
@@ -202,7 +207,7 @@ def run(ctx):
 
     # 2. GEN -> real code -> TV; a batch whose random cases leave a coverage gap is followed by another one
     drv = ctx.gobuild("integrity")
-    nprog = ctx.pick(12, 60)
+    nprog = ctx.pick(12, 120)
     ncases = ctx.pick(5, 7)
     depth = ctx.pick(12, 14)
     records, dropped, groups, ngroups = [], [], [], 0
@@ -235,7 +240,7 @@ def run(ctx):
         records += recs
         dropped += drp
         groups += gs
-        cov, missing = coverage(records, dropped)
+        cov, missing = coverage(records, dropped, ctx.quick())
         if not missing:
             break
         ctx.log("coverage gap after batch %d: %s" % (batch + 1, missing))
